@@ -275,7 +275,9 @@ def oracle_complete(ctx, sc, prop, quiescent):
         refused = getattr(sc, 'refused', set())
         if f.app.eof_in and f.dst.eof_in:
             up_ok = (i, 'dst') in refused or f.dst.delivered == up_w
-            down_ok = (i, 'app') in refused or f.app.delivered == down_w
+            # a connect given up because the application closed before it completed: the destination was never
+            # connected, what it 'wrote' cannot arrive (intended mechanism, ssnet.py:144-149)
+            down_ok = (i, 'app') in refused or f.connect_aborted or f.app.delivered == down_w
             if not (up_ok and down_ok):
                 report(ctx, sc, '%s:liveness:bytes-lost-at-quiescence' % prop, i, 'drain',
                        'dst got %d, app got %d bytes' % (len(up_w), len(down_w)),
